@@ -1403,7 +1403,9 @@ func (fr *frame) enterLoop(li *loopInfo, st *State, reach string) *State {
 	}
 	// A loop that carries around an accumulator (slice, string, map) which the recorded version of the function did not
 	// have, and for which nobody can have written an invariant: what fails after it is undecided, like after a new loop.
-	if fr.fn == u.fn || fr.parent != nil {
+	// (Only where the function's loops are the recorded ones: a function that has gained loops is judged by the new-loop
+	// rule above, which is deliberately narrower.)
+	if (fr.fn == u.fn || fr.parent != nil) && !u.eng.loopsNew(fr.fn) {
 		for _, in := range h.Instrs {
 			p, ok := in.(*ssa.Phi)
 			if !ok {
@@ -1432,10 +1434,10 @@ func (fr *frame) enterLoop(li *loopInfo, st *State, reach string) *State {
 			if named {
 				continue
 			}
-			if u.newLoopAt == 0 {
-				u.newLoopAt = len(u.cmds) + 1
+			if u.newAccAt == 0 {
+				u.newAccAt = len(u.cmds) + 1
 			}
-			u.newLoops = append(u.newLoops, fmt.Sprintf("%s: loop %d of %s carries `%s`, a variable the recorded function did not have (no invariant can exist for it)", funcName(u.fn), li.ordinal, funcName(fr.fn), p.Comment))
+			u.newLoops = append(u.newLoops, fmt.Sprintf("%s: loop %d of %s carries `%s`, a variable the recorded function did not have (no invariant can exist for it; inconclusive answers after it are undecided)", funcName(u.fn), li.ordinal, funcName(fr.fn), p.Comment))
 		}
 	}
 	if ri != nil && riLen != "" {
